@@ -13,6 +13,7 @@ CPROVER_STUBS = '''
 #define __CPROVER_atomic_begin() ((void)0)
 #define __CPROVER_atomic_end() ((void)0)
 #define __CPROVER_assert(c,m) assert(c)
+unsigned long nondet_ulong(void){ static unsigned long x = 0x9E3779B97F4A7C15UL; x ^= x << 13; x ^= x >> 7; x ^= x << 17; return x; }
 '''
 
 
@@ -34,12 +35,12 @@ def validate_translation(N, tls, seed):
     d = os.path.join(build.BUILD, 'c19val.%d.%d.%d' % (N, int(tls), os.getpid()))
     os.makedirs(d, exist_ok=True)
     with open(os.path.join(d, 'gen.c'), 'w') as f:
-        f.write(CPROVER_STUBS + code + '\nunsigned long g_init(void){ return f_c_init(%dUL); }\nunsigned long g_insert(long v){ return f_c_insert(%dUL,(unsigned long)v); }\nlong g_get(void){ return (long)f_c_get(%dUL); }\n' % (BASE, BASE, BASE))
+        f.write(CPROVER_STUBS + code + '\nunsigned long g_init(void){ HAVOC(); return f_c_init(%dUL); }\nunsigned long g_insert(long v){ return f_c_insert(%dUL,(unsigned long)v); }\nlong g_get(void){ return (long)f_c_get(%dUL); }\n' % (BASE, BASE, BASE))
     with open(os.path.join(d, 'drv.cpp'), 'w') as f:
         f.write('''#include <cstdio>
 #include <cstdlib>
 extern "C" { unsigned long g_init(void); unsigned long g_insert(long); long g_get(void); void c_init(void*); int c_insert(void*,long); long c_get(void*); unsigned long c_sizeof(); }
-int main(int argc,char** argv){ unsigned seed=atoi(argv[1]); srand(seed); void* m=aligned_alloc(16,c_sizeof()+64); c_init(m); g_init(); long tok=1; int bad=0; int n=0;
+int main(int argc,char** argv){ unsigned seed=atoi(argv[1]); srand(seed); void* m=aligned_alloc(16,c_sizeof()+64); for(unsigned long q=0;q<c_sizeof()+64;q++) ((unsigned char*)m)[q]=0xA5; c_init(m); g_init(); long tok=1; int bad=0; int n=0;
  for(int k=0;k<4000;k++){ if(rand()%2){ int a=c_insert(m,tok); int b=(int)g_insert(tok); if(a!=b){bad++;} tok++; } else { long a=c_get(m); long b=g_get(); if(a!=b){bad++;} } n++; }
  printf("%d %d\\n",n,bad); return bad?1:0; }
 ''')
@@ -68,6 +69,7 @@ def shared_harness(N, prefix, threads):
     lines.append('unsigned long res[%d]; unsigned char done[%d];' % (nops, len(threads)))
     lines.append('unsigned long dr[%d];' % (N + 1))
     lines.append('int main(void){')
+    lines.append('  HAVOC();')
     lines.append('  f_c_init(%dUL);' % BASE)
     for p in range(prefix):
         lines.append('  { unsigned long r = f_c_insert(%dUL, %dUL); __CPROVER_assert(r == 1, "sequential prefix insert succeeds"); }' % (BASE, 1 + p))
@@ -120,6 +122,7 @@ def sequential_harness(N):
 unsigned char nondet_uchar(void);
 int main(void){
   unsigned long model[%d]; unsigned int count = 0; unsigned long tok = 1;
+  HAVOC();
   f_c_init(%dUL);
   for(int k = 0; k < %d; k++){
     if(nondet_uchar() & 1){
@@ -348,7 +351,7 @@ def main(tier):
                          'prefix': '0..capacity sequential inserts before the threads start', 'interleavings': 'all, at the granularity of the atomic loads/stores/compare-exchanges and plain shared accesses (CBMC partial-order encoding, sequential consistency)',
                          'unwinding': 'compare-exchange retry loops unwound (concurrent operations + 2) times with --unwinding-assertions', 'sequential': 'every operation sequence of length 2*capacity+2, both configurations'}
     chk.cov['domains'] = ['bit-precise integers (CBMC SAT back end)']
-    chk.cov['stubs'] = ['libatomic __atomic_load/__atomic_store/__atomic_compare_exchange (8 bytes) -> __CPROVER_atomic sections', 'private stack objects -> C locals; shared cache object -> scalar words with switch accessors']
+    chk.cov['stubs'] = ['libatomic __atomic_load/__atomic_store/__atomic_compare_exchange (8 bytes) -> __CPROVER_atomic sections', 'private stack objects -> C locals; shared cache object -> scalar words with switch accessors, initial content nondeterministic (the constructor runs on arbitrary storage)']
     chk.assumptions = ['sequentially consistent memory (the code uses seq_cst atomics; plain accesses to records are treated as SC too)', 'compare_exchange_weak never fails spuriously (a spurious failure only adds a retry)',
                        'four or more concurrent operations are outside the bound', 'C generated from clang-14 -O1 IR of the real header; translator validated against the real template on random single-thread sequences every run']
     # translator validation
